@@ -154,6 +154,9 @@ func (b *Builder) drawLock(name string, preferV1 bool) Lock {
 	} else {
 		kind = rapid.IntRange(0, len(LockKinds)-1).Draw(t, name+"kind")
 	}
+	if preferV1 && rapid.IntRange(0, 11).Draw(t, name+"bigMultisig") == 0 {
+		kind = KindIndex("v1-2of70-high-keys")
+	}
 	spec := LockSpec{Kind: kind, K1: rapid.IntRange(0, NumKeys-1).Draw(t, name+"k1"), K2: rapid.IntRange(0, NumKeys-1).Draw(t, name+"k2")}
 	switch LockKinds[kind] {
 	case "v1-1of2-timelock", "above-and-pk":
